@@ -41,7 +41,7 @@ type step struct {
 var compilable = []string{"a.go", "b.xgo", "c.gop", "d.gox", "main_test.go", "x_test.xgo", ".hidden.go", "gop_autogen.go", "B.xgo", "a.b.go",
 	// names whose shape resembles class files, test files or other special cases but which are plain sources
 	"round_rect.gox", "foo_test.gox", "x_y.gop", "a_b_c.xgo", "Kai_spx.gox", "-.go", "ü.xgo", "a b.go"}
-var irrelevant = []string{"README.md", "data.txt", "noext", "a.go.bak", "b.xgo~", "_skip.go", "_a.xgo", "go.sum", "c.gop.orig", "Makefile"}
+var irrelevant = []string{"x.tpl", "README.md", "data.txt", "noext", "a.go.bak", "b.xgo~", "_skip.go", "_a.xgo", "go.sum", "c.gop.orig", "Makefile"}
 var clockSteps = []time.Duration{0, 1, 999, 1000, 500 * time.Microsecond, 400 * time.Millisecond, time.Second, 1500 * time.Millisecond, 3 * time.Second, time.Hour, -1, -time.Second, -2500 * time.Millisecond, 0, 1}
 var grans = []time.Duration{1, 1, time.Microsecond, time.Second, 2 * time.Second}
 
@@ -92,7 +92,10 @@ func (c36) NewRun(plan *simrt.Source, job *harn.Job) harn.Run {
 		// the hash is asked for while the directory cannot be listed (an I/O error,
 		// or the directory moved away and back): what it returns then is not
 		// judged, but it must not disturb the hashes that follow
-		"readdir-fails", "dir-away"}
+		"readdir-fails", "dir-away",
+		// the same process also serves another module, one that registers .tpl as a
+		// class-file extension: a step there, judged by that module's own rules
+		"other-module", "other-module"}
 	for i := 0; i < n; i++ {
 		s := step{Kind: kinds[plan.Draw(len(kinds))], Name: name(), Name2: name(), Size: plan.Draw(40), Clock: plan.Draw(len(clockSteps))}
 		r.steps = append(r.steps, s)
@@ -159,7 +162,9 @@ type meta struct {
 
 // project reads the relevant projection from the directory itself (so the
 // model cannot drift from what the operations really did).
-func project(dir string) (map[string]meta, error) {
+func project(dir string) (map[string]meta, error) { return projectWith(dir, isRelevant) }
+
+func projectWith(dir string, isRelevant func(string) bool) (map[string]meta, error) {
 	ents, err := os.ReadDir(dir)
 	if err != nil {
 		return nil, err
@@ -257,6 +262,73 @@ func (r *c36run) runSeq(sim *simrt.Sim) {
 	if r.crowd > 0 {
 		res.Probes[fmt.Sprintf("large-package-%d-files", r.crowd)]++
 	}
+	// the other module (created at its first step)
+	var (
+		impB      *tool.Importer
+		dirB      string
+		prevProjB map[string]meta
+		prevHashB string
+	)
+	relB := func(name string) bool { return isRelevant(name) || filepath.Ext(name) == ".tpl" }
+	stepB := func(i int, st step) {
+		if impB == nil {
+			rootB := root + "-app"
+			os.RemoveAll(rootB)
+			dirB = filepath.Join(rootB, "pkg")
+			os.MkdirAll(dirB, 0755)
+			os.WriteFile(filepath.Join(rootB, "go.mod"), []byte("module example.com/c36app\n\ngo 1.18\n"), 0644)
+			os.WriteFile(filepath.Join(rootB, "gox.mod"), []byte("xgo 1.5\n\nproject main.tpl App example.com/c36app/rt\nclass .tpl Page\n"), 0644)
+			modB, err := tool.LoadMod(rootB)
+			if err != nil {
+				fail("harness", "LoadMod of the second module: "+err.Error(), "LoadMod")
+				return
+			}
+			impB = tool.NewImporter(modB, &env.XGo{Version: "v1.0.0-sim", Root: rootB}, token.NewFileSet())
+			os.WriteFile(filepath.Join(dirB, "a.go"), []byte("package pkg\n"), 0644)
+			stamp(filepath.Join(dirB, "a.go"))
+			prevProjB, _ = projectWith(dirB, relB)
+			prevHashB = impB.PkgHash("example.com/c36app/pkg", r.self)
+			res.Probes["second-module-with-class-extension"]++
+		}
+		name := []string{"index.tpl", "about.tpl", "a.go", "notes.txt", "page.tpl"}[st.Size%5]
+		p := filepath.Join(dirB, name)
+		did := "create"
+		if fi, err := os.Lstat(p); err != nil {
+			os.WriteFile(p, content(3+st.Size%9, i), 0644)
+			stamp(p)
+		} else if st.Clock%3 == 0 {
+			did = "delete"
+			os.Remove(p)
+		} else if st.Clock%3 == 1 {
+			did = "rewrite"
+			os.WriteFile(p, content(int(fi.Size()), i+1), 0644)
+			stamp(p)
+		} else {
+			did = "touch"
+			stamp(p)
+		}
+		proj, err := projectWith(dirB, relB)
+		if err != nil {
+			fail("harness", err.Error(), "project")
+			return
+		}
+		h := impB.PkgHash("example.com/c36app/pkg", r.self)
+		same := render(proj) == render(prevProjB)
+		r.judged++
+		mix("B:" + did + h[:4])
+		logf("step %d: other module: %s %s -> %v: hash %s", i, did, name, same, h[:12])
+		if same && h != prevHashB {
+			fail("oracle:spurious-change", fmt.Sprintf("step %d (other module, %s %s): only irrelevant entries changed but the hash changed", i, did, name), "hash changed although no relevant file changed: "+did+" in the module with class files")
+		}
+		if !same {
+			r.changed++
+			if h == prevHashB {
+				fail("oracle:missed-change", fmt.Sprintf("step %d (other module, %s %s): the relevant projection changed but the hash did not\nbefore: %s\nafter:  %s", i, did, name, render(prevProjB), render(proj)), "hash unchanged although a relevant file changed: "+did+" in the module with class files "+describeDiff(prevProjB, proj))
+			}
+		}
+		prevProjB, prevHashB = proj, h
+	}
+	defer func() { os.RemoveAll(root + "-app") }()
 	prevProj, _ := project(pkgDir)
 	prevHash := imp.PkgHash(pkgPath, r.self)
 	if prevHash == "" || strings.HasPrefix(prevHash, "?") {
@@ -272,6 +344,10 @@ func (r *c36run) runSeq(sim *simrt.Sim) {
 			break
 		}
 		clock = clock.Add(clockSteps[st.Clock])
+		if st.Kind == "other-module" {
+			stepB(i, st)
+			continue
+		}
 		p := filepath.Join(pkgDir, st.Name)
 		did := st.Kind
 		switch st.Kind {
